@@ -27,6 +27,39 @@ def q(xs):
     return ", ".join('"%s"' % x for x in xs)
 
 
+def classes_of(sl):
+    out = set()
+    for cx in sl:
+        for comp in cx:
+            c = comp["cmp"]
+            out.update(c["cls"])
+            for n in c["nots"] + c["iss"]:
+                out |= classes_of(n)
+    return out
+
+
+def cyclic_complex(exts):
+    """F16's family: the extensions depend on each other in a cycle (an extender mentions, directly or through others, the class it
+    extends) and a complex extender takes part - the extender keeps being re-extended and the selector lists grow without bound"""
+    n = len(exts)
+    dep = {i: {j for j in range(n) if exts[j]["target"] in classes_of(exts[i]["extender"])} for i in range(n)}
+
+    def reach(i):
+        seen, todo = set(), [i]
+        while todo:
+            k = todo.pop()
+            for j in dep[k]:
+                if j not in seen:
+                    seen.add(j)
+                    todo.append(j)
+        return seen
+    for i in range(n):
+        r = reach(i)
+        if i in r and any(any(len(cx) > 1 for cx in exts[k]["extender"]) for k in r | {i}):
+            return True
+    return False
+
+
 def run(ctx):
     rnd = random.Random(ctx.seed)
     ctx.rule = ("style sheets built rule by rule by MC_Extend: <= 3 rules with selectors from a menu (classes, types, compounds, descendant/"
@@ -98,7 +131,9 @@ def run(ctx):
             ctx.count(c["scss"])
             oc = x.get("outcome")
             if oc not in ("css", "error"):
-                ctx.violation("@extend did not terminate normally: %s" % (x.get("panic") or oc), {"src": j["src"], "outcome": oc, "class": "crash"})
+                ctx.violation("@extend did not terminate normally: %s" % (x.get("panic") or oc),
+                              {"src": j["src"], "outcome": oc, "class": "crash",
+                               "deviation": "D_extend_cyclic_complex_blowup" if (oc in ("crash", "timeout") and not x.get("panic") and cyclic_complex(c["exts"])) else ""})
                 continue
             if c["crossmedia"]:
                 if oc != "error":
